@@ -648,6 +648,11 @@ func (s *Ser) block(b *Block, c sctx) []line {
 			if !b.Tight && j > 0 && (!multiBlock || s.St.Canonical || s.pick("itemgap", 3) != 2) {
 				out = append(out, s.sepLine())
 			}
+			if len(it) == 0 {
+				// an empty item: the marker, alone on its line (spaces may follow)
+				out = append(out, line{s: ind + marker + strings.Repeat(" ", s.pick("emptyitemsp", 3))})
+				continue
+			}
 			// an item may begin with a blank line: the marker stands alone on
 			// its line and the content follows at marker width + 1, however
 			// many spaces follow the marker (an empty item cannot interrupt a
